@@ -1,5 +1,5 @@
-(* ClassifyExamples.v — instances showing that the hypotheses of the C03 theorems are satisfiable, and the
-   refutation witnesses of the unguarded statements (finding #19: a FUNCTION symbol overwrites a variable). *)
+(* ClassifyExamples.v — instances showing that the hypotheses of the C03 theorems are satisfiable; the former witnesses
+   of finding #19 (a FUNCTION symbol overwrote a variable) are now rejected with SymbolError (fix b45daa1). *)
 From Coq Require Import String Ascii List Bool ZArith Lia.
 Import ListNotations.
 Require Import PyBase Generated PyStr Symbols SymbolsFacts Merge MergeFacts ParseEq ParseModel Classify ClassifyFacts ClassifyProgram ClassifyClass ClassifyMain ClassifyScript.
@@ -16,8 +16,8 @@ Definition p1 : list stmt :=
   [SEq [tv "Y" 0] [tv "X" (-1); tp "a" 0; tv "Z" 2; te "e" 0] "Y[t] = X[t-1] + a[t] * Z[t+2] + e[t]" "c1";
    SEq [tv "Z" 0] [tv "Y" 0; tf "exp"; ts "X" "'2000'"] "Z[t] = Y[t] + exp(X['2000'])" "c2"].
 
-Example p1_hypotheses : wf_program p1 = true /\ fn_guard p1 = true.
-Proof. split; vm_compute; reflexivity. Qed.
+Example p1_hypotheses : wf_program p1 = true.
+Proof. vm_compute; reflexivity. Qed.
 Example p1_class :
   match program_symbols p1 with
   | Ret syms => class_of syms default_opts =
@@ -65,37 +65,44 @@ Example statement_rejected :
   program_symbols [SEq [mkTerm "if" TKeyword None; tv "Y" 0] [tv "X" 0] "e" "c"] = Raise ParserError.
 Proof. split; vm_compute; reflexivity. Qed.
 
-(* ---------- finding #19 ---------- *)
-(* Y = exp + exp(X) *)
+(* ---------- finding #19, repaired (b45daa1) ---------- *)
+(* Y = exp + exp(X)  and  Y = exp(X) + exp : a name used as a variable and called as a function in one equation is rejected
+   in either order; so is  Y = {a} + a(X) *)
 Definition p19 : list stmt := [SEq [tv "Y" 0] [tv "exp" 0; tf "exp"; tv "X" 0] "Y[t] = exp[t] + exp(X[t])" "c"].
-Definition mem_name (x : string) (l : list (option string)) : bool := existsb (opt_string_eqb (Some x)) l.
-
-Theorem exogenous_otherwise_refuted :
-  exists p syms c, wf_program p = true /\ program_symbols p = Ret syms /\ class_of syms default_opts = Ret c /\
-                   is_exogenous p "exp" = true /\ mem_name "exp" (c_names c) = false /\ fn_guard p = false.
-Proof. exists p19. eexists. eexists. repeat split; vm_compute; reflexivity. Qed.
-
-(* with the call first the same script is rejected *)
-Example p19_swapped : program_symbols [SEq [tv "Y" 0] [tf "exp"; tv "X" 0; tv "exp" 0] "e" "c"] = Raise SymbolError.
-Proof. vm_compute. reflexivity. Qed.
-
-(* Y = a + a(1) ; Z = {a} + a(1): `a` is a variable in the first equation and a parameter in the second, yet accepted *)
+Example function_and_variable_rejected :
+  program_symbols p19 = Raise SymbolError /\
+  program_symbols [SEq [tv "Y" 0] [tf "exp"; tv "X" 0; tv "exp" 0] "e" "c"] = Raise SymbolError /\
+  program_symbols [SEq [tv "Y" 0] [tp "a" 0; tf "a"; tv "X" 0] "e" "c"] = Raise SymbolError /\
+  program_symbols [SEq [tf "Y"; tv "Y" 0] [tv "X" 0] "e" "c"] = Raise SymbolError.
+Proof. repeat split; vm_compute; reflexivity. Qed.
+(* Y = a + a(1) ; Z = {a} + a(1) : formerly accepted (both statements yielded the FUNCTION symbol a) *)
 Definition pC : list stmt :=
   [SEq [tv "Y" 0] [tv "a" 0; tf "a"] "e1" "c1"; SEq [tv "Z" 0] [tp "a" 0; tf "a"] "e2" "c2"].
-Theorem conflict_rejected_refuted :
-  exists p a b syms, wf_program p = true /\ In a (amentions p) /\ In b (amentions p) /\ aname a = aname b /\
-                     clash (atype a) (atype b) /\ program_symbols p = Ret syms.
+Example masked_conflict_rejected : program_symbols pC = Raise SymbolError.
+Proof. vm_compute. reflexivity. Qed.
+(* repeated calls of one function collapse to one FUNCTION symbol, in no list *)
+Example repeated_calls :
+  match program_symbols [SEq [tv "Y" 0] [tf "exp"; tv "X" 0; tf "exp"; tv "Z" 0] "e" "c"; SEq [tv "W" 0] [tf "exp"; tv "Y" 0] "e2" "c2"] with
+  | Ret syms => map sname syms = [Some "Y"; Some "exp"; Some "X"; Some "Z"; Some "W"] /\
+                class_of syms default_opts = Ret (mkClass [Some "Y"; Some "W"] [Some "X"; Some "Z"] [] [] 0 0)
+  | Raise _ => False
+  end.
+Proof. vm_compute. split; reflexivity. Qed.
+(* the hypotheses of function_clash_rejected are satisfiable *)
+Example function_clash_hypotheses :
+  wf_program p19 = true /\
+  exists a b, In a (amentions p19) /\ In b (amentions p19) /\ aname a = aname b /\ atype a = TFunction /\ atype b <> TFunction.
 Proof.
-  exists pC, (mkA (mkTerm "a" TExogenous (Some (IInt 0))) "e1" "c1"), (mkA (tp "a" 0) "e2" "c2"). eexists.
-  split; [vm_compute; reflexivity|]. split; [vm_compute; auto|]. split; [vm_compute; auto 10|]. split; [reflexivity|].
-  split; [split; [discriminate|reflexivity]|vm_compute; reflexivity].
+  split; [reflexivity|]. exists (mkA (tf "exp") "Y[t] = exp[t] + exp(X[t])" "c"), (mkA (mkTerm "exp" TExogenous (Some (IInt 0))) "Y[t] = exp[t] + exp(X[t])" "c").
+  split; [vm_compute; auto 10|]. split; [vm_compute; auto 10|]. split; [reflexivity|]. split; [reflexivity|discriminate].
 Qed.
 
 (* ---------- the default range ---------- *)
 Example default_range_examples :
   default_range 5 1 2 = Ret [1; 2]%Z /\ default_range 4 1 2 = Ret [1]%Z /\ default_range 3 1 1 = Ret [1]%Z /\
   default_range 3 2 1 = Ret [] /\ default_range 2 2 1 = Raise IndexError /\ default_range 2 0 2 = Raise IndexError /\
-  default_range 0 0 0 = Raise (SolutionError None) /\ default_range 3 0 0 = Ret [0; 1; 2]%Z.
+  default_range 0 0 0 = Raise (SolutionError None) /\ default_range 3 0 0 = Ret [0; 1; 2]%Z /\
+  default_range 3 (-1) 0 = Ret [-1]%Z /\ default_range 5 3 (-1) = Ret [3; 4]%Z /\ default_range 3 3 0 = Raise IndexError /\ default_range 3 0 3 = Raise IndexError.
 Proof. repeat split; vm_compute; reflexivity. Qed.
 
 (* ---------- from the text ---------- *)
@@ -109,19 +116,19 @@ Proof. split; [vm_compute; reflexivity|eexists; vm_compute; reflexivity]. Qed.
 (* ---------- the hypotheses of the rejection theorems are satisfiable ---------- *)
 Definition pR : list stmt := [SEq [tv "Y" 0] [tv "a" 0] "e1" "c1"; SEq [tv "Z" 0] [tp "a" 0] "e2" "c2"].
 Example conflict_hypotheses :
-  wf_program pR = true /\ fn_guard pR = true /\
+  wf_program pR = true /\
   exists a b, In a (amentions pR) /\ In b (amentions pR) /\ aname a = aname b /\ clash (atype a) (atype b).
 Proof.
-  split; [reflexivity|]. split; [reflexivity|].
+  split; [reflexivity|].
   exists (mkA (mkTerm "a" TExogenous (Some (IInt 0))) "e1" "c1"), (mkA (tp "a" 0) "e2" "c2").
   split; [vm_compute; auto|]. split; [vm_compute; auto 10|]. split; [reflexivity|]. split; [discriminate|reflexivity].
 Qed.
 Definition pD : list stmt := [SEq [tv "Y" 0] [tv "X" 0] "Y[t] = X[t]" "c1"; SEq [tv "Y" 0] [tv "Z" 0] "Y[t] = Z[t]" "c2"].
 Example double_definition_hypotheses :
-  wf_program pD = true /\ fn_guard pD = true /\
+  wf_program pD = true /\
   exists a b, In a (amentions pD) /\ In b (amentions pD) /\ aname a = aname b /\ two_texts a b.
 Proof.
-  split; [reflexivity|]. split; [reflexivity|].
+  split; [reflexivity|].
   exists (mkA (mkTerm "Y" TEndogenous (Some (IInt 0))) "Y[t] = X[t]" "c1"), (mkA (mkTerm "Y" TEndogenous (Some (IInt 0))) "Y[t] = Z[t]" "c2").
   split; [vm_compute; auto|]. split; [vm_compute; auto 10|]. split; [reflexivity|].
   split; [reflexivity|]. split; [reflexivity|]. left. discriminate.
